@@ -56,9 +56,9 @@ ASSUMPTIONS = [
     "lazy evaluation methods of transforms (tensor(), disp(), __call__, update()) may register buffers by design and are not accessors",
     "objects related only by shallow copies share tensors by design; only deep-copy independence is judged in histories",
 ]
-MIN_NONTRIVIAL = {"quick": 3000, "thorough": 8000}
-MIN_OUTCOMES = {"quick": 3000, "thorough": 8000}
-MIN_SUB_TRACES = {"func": 4000, "accessor": 1500, "history": 5000}
+MIN_NONTRIVIAL = {"quick": 7000, "thorough": 150000}  # measured 15132 / 376636
+MIN_OUTCOMES = {"quick": 14000, "thorough": 300000}  # measured 29086 / 757314
+MIN_SUB_TRACES = {"func": 4000, "accessor": 1900, "history": 9000}  # measured (quick) 5980 / 3850 / 19256
 
 
 # ---------------------------------------------------------------------------
@@ -395,7 +395,7 @@ def grid_menu(D):
         "resample(0.75)": lambda g, c: g.resample(0.75),
         "resample(min)": lambda g, c: g.resample("min"),
         "resample(tensor)": lambda g, c: g.resample(c.t("arg", _vecD(D, 4, 0.5, 2.0))),
-        "resample(own spacing)": lambda g, c: g.resample(g.spacing()),
+        "resample(own-spacing)": lambda g, c: g.resample(g.spacing()),
         "downsample(1)": lambda g, c: g.downsample(1),
         "downsample(0)": lambda g, c: g.downsample(0),
         "downsample(-1)": lambda g, c: g.downsample(-1),
@@ -507,8 +507,8 @@ def image_menu(typ, D):
         "region_of_interest": lambda x, c: x.region_of_interest((1,) * D, (3,) * D),
         "conv(kernel)": lambda x, c: x.conv(c.t("kernel", torch.tensor([0.25, 0.5, 0.25]))),
         "conv(delta)": lambda x, c: x.conv(c.t("kernel", torch.tensor([1.0]))),
-        "sample(other grid)": lambda x, c: x.sample(g2(x)),
-        "sample(own grid)": lambda x, c: x.sample(x.grids() if batch else x.grid()),
+        "sample(other-grid)": lambda x, c: x.sample(g2(x)),
+        "sample(own-grid)": lambda x, c: x.sample(x.grids() if batch else x.grid()),
         "sample(coords)": lambda x, c: x.sample(c.t("coords", R.vals(((2,) if batch else ()) + S + (D,), 4, -0.9, 0.9))),
         "tensor()": lambda x, c: x.tensor(),
         "clone()": lambda x, c: x.clone(),
@@ -558,9 +558,9 @@ def transform_menu(spec):
 
     M = {
         "grid(other)": lambda t, c: t.grid(make_grid(D, "other")),
-        "grid(same object)": lambda t, c: t.grid(t.grid()),
-        "grid(equal clone)": lambda t, c: t.grid(t.grid().clone()),
-        "grid(other ac)": lambda t, c: t.grid(t.grid().align_corners(not t.grid().align_corners())),
+        "grid(same-object)": lambda t, c: t.grid(t.grid()),
+        "grid(equal-clone)": lambda t, c: t.grid(t.grid().clone()),
+        "grid(other-ac)": lambda t, c: t.grid(t.grid().align_corners(not t.grid().align_corners())),
         "grid(resized)": lambda t, c: t.grid(t.grid().resize(tuple(s + 2 for s in t.grid().size()))),
         "condition(tensor)": lambda t, c: t.condition(c.t("cond", R.vals((1, 3), 2))),
         "condition(kw)": lambda t, c: t.condition(z=c.t("cond", R.vals((1, 3), 2))),
@@ -593,6 +593,12 @@ EVAL_FREE = {"numpy()", "affine()", "transform(cube,world)", "coords()", "points
 
 
 def menu_for(spec):
+    M = _menu_for(spec)
+    assert not any(" " in k for k in M), "signature parts must not contain spaces"
+    return M
+
+
+def _menu_for(spec):
     typ, D = spec["type"], spec["D"]
     if typ == "Grid":
         return grid_menu(D)
